@@ -713,7 +713,7 @@ def build_unit(template_path: str, repo_root: str, verif_root: str, canary: bool
             impl_sub = aparts[2] if len(aparts) > 2 else None      # optional: text that must occur in the impl header (disambiguation)
             tl = open(os.path.join(verif_root, src_tpl)).read().split('\n')   # the file itself, not its includes
             hit = [k for k, l in enumerate(tl) if l.strip().startswith('//@fn ') and
-                   (lambda ps: (ps[2] == fname or ('as=' + fname) in ps[3:]) and (impl_sub is None or impl_sub in ps[1]))([x.strip() for x in l.strip()[len('//@fn '):].split('|')])]
+                   (lambda ps: ((ps[2] == fname and not any(x.startswith('as=') for x in ps[3:])) or ('as=' + fname) in ps[3:]) and (impl_sub is None or impl_sub in ps[1]))([x.strip() for x in l.strip()[len('//@fn '):].split('|')])]
             if len(hit) != 1:
                 raise LostAnchor(f'assumed contract {fname} not found exactly once in {src_tpl}')
             fb, _ = parse_fn_block(tl, hit[0])
